@@ -13,7 +13,9 @@ pub fn compact(depth: usize) -> Value {
     let batches: Vec<Vec<(i64, i64)>> = vec![
         (0..6).map(|i| (2 * i, i % 3)).collect(), (0..6).map(|i| (2 * i + 1, i % 2)).collect(), (20..25).map(|i| (i, 2)).collect()];
     let dels: Vec<(&str, Box<dyn Fn(i64, i64) -> bool>)> = vec![
-        ("k < 4", Box::new(|k, _| k < 4)), ("v = 1", Box::new(|_, v| v == 1)), ("k >= 3 and k <= 21", Box::new(|k, _| k >= 3 && k <= 21)), ("k >= 0", Box::new(|k, _| k >= 0))];
+        ("k < 4", Box::new(|k, _| k < 4)), ("v = 1", Box::new(|_, v| v == 1)), ("k >= 3 and k <= 21", Box::new(|k, _| k >= 3 && k <= 21)), ("k >= 0", Box::new(|k, _| k >= 0)),
+        // every row of the third batch (a RowSet that is deleted entirely, with live RowSets before and after it)
+        ("v = 2", Box::new(|_, v| v == 2))];
     let mut alphabet = vec![Op::Compact, Op::Reopen];
     for i in 0..batches.len() { alphabet.push(Op::Ins(i)); }
     for i in 0..dels.len() { alphabet.push(Op::Del(i)); }
